@@ -170,7 +170,7 @@ func SelectByFilter(s vlib.Snapshot, f queue.MessageManageFilterRequest, k Kind)
 		if f.Target != "" && r.Target != f.Target {
 			continue
 		}
-		if !f.Before.IsZero() && !(r.ReceivedAt < f.Before.UnixNano()) {
+		if !f.Before.IsZero() && !time.Unix(0, r.ReceivedAt).Before(f.Before) { // time comparison: Before may lie outside the int64-nanosecond range
 			continue
 		}
 		rows = append(rows, r)
